@@ -1,0 +1,30 @@
+//go:build verif
+
+package batchrelease
+
+import (
+	"k8s.io/apimachinery/pkg/runtime"
+	"k8s.io/client-go/tools/record"
+	"sigs.k8s.io/controller-runtime/pkg/client"
+	"sigs.k8s.io/controller-runtime/pkg/handler"
+)
+
+// NewReconcilerForVerif builds a BatchReleaseReconciler the way newReconciler does, without a manager.
+func NewReconcilerForVerif(c client.Client, scheme *runtime.Scheme, recorder record.EventRecorder) *BatchReleaseReconciler {
+	return &BatchReleaseReconciler{
+		Client:   c,
+		Scheme:   scheme,
+		recorder: recorder,
+		executor: NewReleasePlanExecutor(c, recorder),
+	}
+}
+
+// NewWorkloadEventHandlerForVerif returns the real workload -> BatchRelease event mapping.
+func NewWorkloadEventHandlerForVerif(reader client.Reader) handler.EventHandler {
+	return &workloadEventHandler{Reader: reader}
+}
+
+// NewPodEventHandlerForVerif returns the real pod -> BatchRelease event mapping.
+func NewPodEventHandlerForVerif(reader client.Reader) handler.EventHandler {
+	return &podEventHandler{Reader: reader}
+}
